@@ -38,3 +38,28 @@ def witness_F27():
     except Exception:
         return True
     return False
+
+
+# ---- F28 (C01): nested all-open parallel raises instead of acting as an open branch
+def nested_all_open_parallel(entry):
+    i = entry.get("input")
+    return (entry.get("what") in ("construction-independence", "composition-law") and isinstance(i, dict)
+            and ("Xo{" in i.get("cdc", "") or "Xp{" in i.get("cdc", "")) and i.get("all_open_parallel") is True)
+
+
+def witness_F28():
+    import sys, os
+    sys.path.insert(0, os.path.dirname(os.path.abspath(__file__)))
+    import circgen
+    import numpy as np
+    from pyimpspec import Circuit, Parallel, Resistor
+    from pyimpspec.exceptions import InfiniteImpedance
+    Open = circgen.register_open_element()
+    try:
+        try:
+            Circuit(Parallel([Resistor(), Parallel([Open(), Open()])])).get_impedances(np.array([1.0]))
+        except InfiniteImpedance:
+            return True
+        return False
+    finally:
+        circgen.unregister_open_element()
